@@ -24,7 +24,9 @@ RULE = ("each run = 1-3 concurrent caller threads x 1-3 remote calls with attrib
         "RST or ETIMEDOUT; calls are strings, function calls, proxies, remote dictionary get/set, requests and responses above "
         "64 KiB, requests that cannot be encoded (one, or 70 in a row), server values that cannot be sent back; write "
         "back-pressure and a failing application on_error callback are drawn per run; a second client on its own connection "
-        "in the two-clients configuration")
+        "in the two-clients configuration; the real-hot configuration pre-empts the io loop at source lines of the loop that "
+        "fails the pending callers (1 in 3 per line, an application thread preferred as successor), so that a call is "
+        "registered while that loop is walking the table")
 ASSUMPTIONS = [
     "TCP model: in-order, lossless, duplicate-free byte pipes per direction; cuts sever both directions; no silent stall without close",
     "exception class is free: any exception counts as 'raises'; exceptions raised by harness stubs are harness errors",
@@ -40,8 +42,13 @@ EXPECTED_PROBES = [f"fault_cut_{c}_{k}" for c in CUT_CLASSES for k in ("fin", "r
     "probe_two_or_more_pending", "probe_three_pending", "probe_out_of_order_arrival", "probe_call_after_loss", "probe_close_race",
     "probe_retry_path", "probe_server_error", "probe_server_shutdown", "probe_peer_push_handled", "probe_cut_with_calls_pending",
     "probe_big_response", "probe_big_request", "probe_unencodable_request", "probe_broken_on_error_ran",
-    "probe_many_unencodable_requests_then_a_call", "net_cut_timeout", "probe_two_connections"]
+    "probe_many_unencodable_requests_then_a_call", "net_cut_timeout", "probe_two_connections", "line_preemptions_hot"]
 WALL_CAP = {"quick": 400, "thorough": 3600}
+
+
+# functions whose lines are pre-emption chances of their own in the real-hot configuration: the loop that fails the
+# pending callers when the listener exits (it walks the table that caller threads insert into)
+HOT = ["_cleanup_pending_responses"]
 
 
 def setup_worker():
@@ -52,9 +59,11 @@ def setup_worker():
 def plan(tier):
     if tier == "quick":
         return [("real", {"peer": "real"}, 2600, 50), ("adversary", {"peer": "scripted"}, 2200, 50),
-                ("real-lines", {"peer": "real", "lines": 1}, 500, 25), ("two-clients", {"peer": "real", "clients": 2}, 500, 25)]
+                ("real-lines", {"peer": "real", "lines": 1}, 500, 25), ("two-clients", {"peer": "real", "clients": 2}, 500, 25),
+                ("real-hot", {"peer": "real", "lines": 1, "hot": HOT, "hot_budget": 4}, 2200, 50)]
     return [("real", {"peer": "real"}, 70000, 100), ("adversary", {"peer": "scripted"}, 70000, 100),
-            ("real-lines", {"peer": "real", "lines": 1}, 30000, 50), ("two-clients", {"peer": "real", "clients": 2}, 30000, 50)]
+            ("real-lines", {"peer": "real", "lines": 1}, 30000, 50), ("two-clients", {"peer": "real", "clients": 2}, 30000, 50),
+            ("real-hot", {"peer": "real", "lines": 1, "hot": HOT, "hot_budget": 4}, 60000, 100)]
 
 
 def _from_harness(exc):
@@ -66,7 +75,8 @@ def scenario(ch, cfg):
     from klongpy.core import KGSym
     import klongpy.sys_fn_ipc as ipc
     peer_kind = cfg["peer"]
-    env = IpcEnv(ch, max_steps=40000, peer=peer_kind, lines=(1 + ch.draw(3, "budget")) if cfg.get("lines") else 0)
+    env = IpcEnv(ch, max_steps=40000, peer=peer_kind, lines=(1 + ch.draw(3, "budget")) if cfg.get("lines") else 0,
+                 hot=cfg.get("hot", ()), hot_budget=cfg.get("hot_budget", 0))
     w, net = env.w, env.net
     stats = w.stats
     ncallers = 1 + ch.weighted([2, 3, 3], "ncallers")
